@@ -27,7 +27,7 @@ cells only in their hash/depth fields), drop / swap / duplicate / retarget a ref
 pruned branch, a flipped bit of the hash stored in the proof root, level-lift of a pruned branch (mask m -> m | 2^j keeping every hash at levels <= j, plus an attacker-chosen lower
 stored hash), proof root turned into an ordinary cell with the same data, expected hash random / one bit flipped; each either
 with the stale proof-root data or with the proof root recomputed (self-consistent forgery).
-Account mutants: claimed state = pruned branch carrying the committed hash / another account's cell / one flipped bit;
+Account mutants: claimed state = pruned branch carrying the committed hash / the account cell with one child pruned (level-0 hash = committed, own hash not) / another account's cell / one flipped bit;
 address of another account / absent address; the asked account's branch pruned away and "no state" claimed; other block hash; state proof of a different state; header forgery with a forged
 state; wrong number of roots.
 
@@ -625,6 +625,14 @@ def check_account(case):
         claimed = rc.pruned_branch_of(acc, 1 + mut['a'] % 3)
     elif kind == 'claimed-raw-pruned':                      # any pruned-branch cell that merely names the hash
         claimed = rc.pruned_raw(1, [acc.H(0)], [(acc.D(0) + mut['a']) % 1024])
+    elif kind == 'claimed-partly-pruned':                   # the account cell with one child (code / data / the extra-currency
+        if not acc.refs:                                     # dictionary) replaced by its pruned branch: its level-0 hash is the
+            return None                                      # committed one, its own (representation) hash is not
+        j = mut['a'] % len(acc.refs)
+        lvl = 1 + (mut['a'] // 4) % 3
+        claimed = rc.RCell(acc.bits, [rc.pruned_branch_of(r, lvl) if i == j else r for i, r in enumerate(acc.refs)], False)
+        if claimed.repr_hash() == acc.repr_hash():
+            raise HarnessError('partly pruned claim has the committed hash')
     elif kind == 'claimed-other-account':
         others = [a for a in case['accounts'] if a['id'] != target['id']]
         if not others:
@@ -705,7 +713,7 @@ def check_account(case):
     return None
 
 
-ACC_MUTS = ['path-pruned-claim-empty', 'path-pruned-claim-empty', 'path-pruned-claim-none', 'claimed-pruned', 'claimed-pruned', 'claimed-raw-pruned', 'claimed-other-account', 'claimed-bitflip', 'claimed-child-changed',
+ACC_MUTS = ['claimed-partly-pruned', 'claimed-partly-pruned', 'path-pruned-claim-empty', 'path-pruned-claim-empty', 'path-pruned-claim-none', 'claimed-pruned', 'claimed-pruned', 'claimed-raw-pruned', 'claimed-other-account', 'claimed-bitflip', 'claimed-child-changed',
             'other-address', 'other-block-hash', 'other-state', 'forged-header', 'forged-header', 'one-root', 'three-roots', 'swapped-roots']
 
 
